@@ -202,7 +202,8 @@ func (l *DList[T]) Pop() *DoubleNode[T] {
 	node := DoubleNode[T]{}
 
 	if head.next == nil {
-		head = nil
+		// The only node cannot be unlinked, a copy of it is returned.
+		node = *head
 	} else {
 		tmp := head
 		node = *tmp
